@@ -137,7 +137,8 @@ def ref_reindex(ra, p, new, fill, method=None):
     kind_sorted = None
     src = []
     for l in new:
-        if method is None:
+        if method is None or R.first_match(lab, l) is not None:
+            # "equals the original slice at that label when the label existed" - under every method (own labels -> identity)
             src.append(R.first_match(lab, l))
         else:
             if kind_sorted is None:
